@@ -236,6 +236,79 @@ def check_roundtrip(ctx):
                                                  problem=bad),
                                     finding_key=key))
                                 break
+        # safely castable narrower dtypes and numpy scalars, mixed with
+        # full-range values of the declared dtype inside one shard (the first
+        # example of a shard being the narrow one)
+        narrow = {"int64": ["uint8", "int16", "int32"],
+                  "int32": ["int8", "uint16"], "uint32": ["uint8", "uint16"],
+                  "float32": ["float16"], "float64": ["float32", "int32"]}
+        for fmt in ("fb", "npz", "tfrec"):
+            for dtype, srcs in narrow.items():
+                if fmt == "tfrec" and dtype not in TF_DTYPES:
+                    continue
+                root = tmp / f"narrow_{fmt}_{dtype}"
+                attrs = [Attribute(name="id", dtype="int64", shape=()),
+                         Attribute(name="x", dtype=dtype, shape=(2,)),
+                         Attribute(name="s", dtype=dtype, shape=())]
+                ds = DatasetStructure(saved_data_description=attrs,
+                                      compression="", examples_per_shard=3,
+                                      shard_file_type=fmt)
+                d = Dataset.create(root, Metadata(description="nw"), ds)
+                full = _values(rnd, dtype, (8,))
+                seq = []
+                for j in range(6):
+                    if j % 3 == 0:      # first of its shard: narrow
+                        src = srcs[(j // 3) % len(srcs)]
+                        x = np.array([1, 2], src)
+                        sc = np.dtype(src).type(3)
+                    else:
+                        x = full[2 * j - 2:2 * j].copy()
+                        sc = full[j]
+                    seq.append((x, sc))
+                kept = []
+                with d.filler() as f:
+                    for x, sc in seq:
+                        try:
+                            f.write_example(values={"id": len(kept), "x": x,
+                                                    "s": sc}, split="train")
+                            kept.append((x, sc))
+                        except ValueError:
+                            pass    # a presentation this format refuses
+                d = Dataset(root)
+                for iface in ["numpy", "concurrent"] + (
+                        ["rust"] if fmt == "fb" else []):
+                    n_eval += 1
+                    try:
+                        exs = _read(d, iface)
+                    except Exception as e:  # noqa: BLE001
+                        fails.append(C.result(
+                            "round trip", False, function="decode_array",
+                            witness=dict(fmt=fmt, dtype=dtype, interface=iface,
+                                         presentation="narrow-then-full",
+                                         problem="unreadable: " + repr(e)[:200])))
+                        continue
+                    wide = "int64" if fmt == "tfrec" and np.dtype(
+                        dtype).kind in "iu" else dtype
+                    for e in exs:
+                        x, sc = kept[C.ex_id(e)]
+                        if _bits(np.asarray(e["x"]), wide) != _bits(
+                                np.asarray(x).astype(dtype), wide) or \
+                                _bits(np.asarray(e["s"]), wide) != _bits(
+                                    np.asarray(sc).astype(dtype), wide):
+                            fails.append(C.result(
+                                "round trip", False,
+                                function="ShardWriterNP.close" if fmt == "npz"
+                                else "save_numpy_vector_as_bytearray",
+                                witness=dict(
+                                    fmt=fmt, dtype=dtype, interface=iface,
+                                    presentation="narrow-then-full",
+                                    example=C.ex_id(e),
+                                    problem="numeric attribute differs",
+                                    written=[str(x.tolist()), str(sc)],
+                                    written_as=str(np.asarray(x).dtype),
+                                    read=[str(np.asarray(e["x"]).tolist()),
+                                          str(e["s"])])))
+                            break
         # a consumer that overwrites what it was handed (in-place
         # normalisation) must not change what later epochs deliver
         import itertools as _it
@@ -380,7 +453,7 @@ def check_shard_sizes(ctx):
             for na in counts:
                 for nb in (0, 1, eps + 1):
                     for mdmode in ("none", "same", "change", "tuple",
-                                   "rejected"):
+                                   "rejected", "per-split"):
                         k += 1
                         n_eval += 1
                         root = tmp / f"s{k}"
@@ -396,7 +469,11 @@ def check_shard_sizes(ctx):
                             with d.filler() as f:
                                 for sp, i in seq:
                                     md = None
-                                    if sp == "train":
+                                    if mdmode == "per-split":
+                                        # each split under its own constant
+                                        # value, writes interleaved
+                                        md = {"split": sp, "n": [1, {"x": 2}]}
+                                    elif sp == "train":
                                         if mdmode == "same":
                                             md = {"k": 1}
                                         elif mdmode == "change":
@@ -434,8 +511,8 @@ def check_shard_sizes(ctx):
                                 break
                             for j in range(len(sh) - 1):
                                 same_md = sh[j][1] == sh[j + 1][1]
-                                if sizes[j] != eps and (same_md or
-                                                        mdmode in ("none", "same", "tuple")):
+                                if sizes[j] != eps and (same_md or mdmode in (
+                                        "none", "same", "tuple", "per-split")):
                                     bad = dict(eps=eps, split=sp, sizes=sizes,
                                                md=mdmode,
                                                what="non-final shard not full "
@@ -457,7 +534,8 @@ def check_shard_sizes(ctx):
         bad is None, function="write_example", evaluations=n_eval,
         witness=bad, bound="examples_per_shard 1..7, counts around multiples, "
                            "two interleaved splits, metadata none/same/"
-                           "changing/tuple-valued/after a rejected write")]
+                           "changing/tuple-valued/after a rejected write/"
+                           "one constant value per split")]
 
 
 def check_custom_metadata(ctx):
@@ -515,8 +593,15 @@ def check_custom_metadata(ctx):
             if i == 6:
                 m["b"] = None
             yield "train", m
+    def interleaved_switch():
+        # another split switches to the new value first
+        a, b = {"k": "A"}, {"k": "B"}
+        for sp, m in [("train", a), ("test", b), ("train", b), ("train", b),
+                      ("test", b), ("test", a), ("train", a), ("test", a),
+                      ("train", a), ("test", b), ("train", b)]:
+            yield sp, m
     scenarios = [reuse_flat, reuse_nested, mutate_after, alternate_splits,
-                 absent_mix, key_sets, pop_in_place]
+                 absent_mix, key_sets, pop_in_place, interleaved_switch]
     with C.tmpdir() as tmp:
         k = 0
         for eps in (2, 3, 5):
@@ -527,12 +612,21 @@ def check_custom_metadata(ctx):
                 d = C.mk_dataset(root, "fb", "", eps=eps)
                 labels = {}
                 i = 0
-                with d.filler() as f:
-                    for sp, m in sc():
-                        labels[i] = (sp, copy.deepcopy(m))
-                        f.write_example(values=C.example(i), split=sp,
-                                        custom_metadata=m)
-                        i += 1
+                try:
+                    with d.filler() as f:
+                        for sp, m in sc():
+                            labels[i] = (sp, copy.deepcopy(m))
+                            f.write_example(values=C.example(i), split=sp,
+                                            custom_metadata=m)
+                            i += 1
+                except Exception as e:  # noqa: BLE001
+                    # legal examples and legal metadata: the write has to
+                    # succeed for the example to be stored under its label
+                    bad = dict(scenario=sc.__name__, eps=eps, example=i,
+                               written_under=labels.get(i, (None, None))[1],
+                               problem="the writing session raised: "
+                                       + repr(e)[:200])
+                    break
                 d2 = Dataset(root)
                 for sp in {s for s, _ in labels.values()}:
                     for s, rel in C.tree_shards(root, sp):
@@ -565,22 +659,33 @@ def check_custom_metadata(ctx):
                     # alone, and together with the other selection option
                     # (a limit that cannot bite must not change the answer, a
                     # limit of one shard may only shrink it)
-                    for iface, lim in (("numpy", None), ("numpy", 1000),
-                                       ("concurrent", 1000), ("numpy", 1)):
-                        kw = {} if lim is None else dict(
-                            custom_metadata_type_limit=lim)
+                    for iface, lim, opt in (
+                            ("numpy", None, None),
+                            ("numpy", 1000, "custom_metadata_type_limit"),
+                            ("concurrent", 1000, "custom_metadata_type_limit"),
+                            ("numpy", 1, "custom_metadata_type_limit"),
+                            ("numpy", 1000, "shards"), ("numpy", 1, "shards"),
+                            ("concurrent", 1, "shards")):
+                        kw = {} if lim is None else {opt: lim}
                         if iface == "concurrent":
                             kw["file_parallelism"] = 2
-                        got = C.iterate(d2, iface, "train",
-                                        shard_filter=lambda s, jv=jv:
-                                        s.custom_metadata == jv, **kw)
+                        try:
+                            got = C.iterate(d2, iface, "train",
+                                            shard_filter=lambda s, jv=jv:
+                                            s.custom_metadata == jv, **kw)
+                        except Exception as e:  # noqa: BLE001
+                            if not want:
+                                continue     # nothing selected: may refuse
+                            bad = dict(scenario=sc.__name__, eps=eps, value=v,
+                                       interface=iface, expected=want,
+                                       error=repr(e)[:200], **kw)
+                            break
                         if (lim != 1 and not set(want) <= set(got)) or \
                                 not set(got) <= set(want) | set(extra_ok) or \
                                 (lim == 1 and want and not got):
                             bad = dict(scenario=sc.__name__, eps=eps, value=v,
-                                       interface=iface,
-                                       custom_metadata_type_limit=lim,
-                                       selected=got, expected=want)
+                                       interface=iface, selected=got,
+                                       expected=want, **kw)
                             break
                     if bad:
                         break
@@ -594,7 +699,7 @@ def check_custom_metadata(ctx):
         "mutated flat / nested, keys dropped / added with None or falsy "
         "values / popped in place, alternated across splits, absent)",
         bad is None, function="write_example", evaluations=n_eval,
-        witness=bad, bound="7 scenarios x examples_per_shard in {2,3,5}; "
+        witness=bad, bound="8 scenarios x examples_per_shard in {2,3,5}; "
                            "selection by metadata alone and combined with "
                            "custom_metadata_type_limit")]
 
